@@ -71,6 +71,7 @@ func corpusBoth() []core.Case {
 		// large Ring: full ring of capacity 1024 rotated so that most of the content sits before head, then PushWithExpand
 		core.Case{Lines: []string{"@ C10 ringL 1024", "fill 1024 1", "drain 600", "fill 600 2000", "xfill 1 5000", "cap", "len", "drain 2000", "isempty"}, Tag: "large"},
 		core.Case{Lines: []string{"@ C10 ringL 4097", "fill 5000 1", "drain 4000", "fill 4000 9000", "recap 4096", "recap 4098", "xfill 3 20000", "cap", "len", "drain 9000"}, Tag: "large"},
+		func() core.Case { c := bigRingCase(1<<21+1, "4294967294"); c.Lines[0] = "@ C10 syncS 2097153"; return c }(),
 		bigRingCase(1<<17+1, ""),
 		bigRingCase(3<<17, "4294967294"),
 		// PushWait / PopWait in the three regimes of maxWait, across the 2^32 boundary
@@ -185,6 +186,9 @@ func genSync(r *core.Rand, tier string) core.Case {
 }
 
 func implBoth(c core.Case) []string {
+	if isSyncSpec(c) {
+		return implSyncSpec(c)
+	}
 	if copyKind(c) != "" {
 		return implCopy(c)
 	}
@@ -201,6 +205,10 @@ func implBoth(c core.Case) []string {
 }
 
 func checkBoth(c core.Case, out []string) *core.Failure {
+	if isSyncSpec(c) {
+		sc := core.Case{Lines: append([]string{strings.Replace(c.Lines[0], "syncS", "sync", 1)}, c.Lines[1:]...)}
+		return checkSyncMax(sc, out, 1<<24)
+	}
 	if copyKind(c) != "" {
 		return checkCopy(c, out)
 	}
@@ -217,6 +225,9 @@ func checkBoth(c core.Case, out []string) *core.Failure {
 }
 
 func classifyBoth(c core.Case, out []string) []string {
+	if isSyncSpec(c) {
+		return []string{"sync-spec-big"}
+	}
 	if copyKind(c) != "" {
 		return classifyCopy(c, out)
 	}
